@@ -608,6 +608,17 @@ namespace
             }
           if (auto *st = dyn_cast<CaseStmt>(s))
             {
+              // the evaluated label (a named constexpr label has no literal to read it from)
+              bool is_enumerator = false;
+              if (st->getLHS())
+                if (auto *dr = dyn_cast<DeclRefExpr>(st->getLHS()->IgnoreParenCasts()))
+                  is_enumerator = isa<EnumConstantDecl>(dr->getDecl());
+              if (st->getLHS() && !is_enumerator && !st->getLHS()->isValueDependent())
+                {
+                  Expr::EvalResult er;
+                  if (st->getLHS()->EvaluateAsInt(er, Ctx))
+                    J.attribute("cv", (int64_t) er.Val.getInt().getExtValue());
+                }
               J.attributeArray("c", [&] { child(st->getLHS()); child(st->getSubStmt()); });
               return;
             }
